@@ -468,14 +468,10 @@ func (st *State) loadEdgeOne(t *entTable, ent, row *Term, w entWith) {
 	}
 	rows, n := st.queryRows(qb)
 	sl := st.mkEntities(target, qb, rows, n)
-	for _, l := range []struct {
-		p string
-		v *Term
-	}{{"$b", sl.Base}, {"$l", sl.Len}, {"$c", sl.Cap}} {
-		key := tk + "|Edges." + ed.Field + "." + l.p
-		arr := st.heapGet(st.heap, key, ArrS(SInt, SInt), l.p == "$b")
-		st.heapSet(key, Store(arr, ent, l.v))
-	}
+	ei, _ := findField(t.Struct, "Edges")
+	es, _ := edgesStruct(t.Struct)
+	fi, _ := findField(es, ed.Field)
+	st.store(st.fieldAddr(st.fieldAddr(st.ptrAddr(ent, t.Named), ei), fi), sl)
 }
 
 // mkEntities materialises n entity objects, the i-th for rows[i], and returns the slice of pointers.
@@ -579,8 +575,13 @@ func (st *State) mkEntities(t *entTable, b *entBuilder, rows, n *Term) *SliceV {
 	// the result slice
 	pt := types.NewPointer(t.Named)
 	res := st.mkColumnSlice(pt, func(i *Term) *Term { return Add(w0, i) }, n)
+	if st.resultSlices == nil {
+		st.resultSlices = map[string]resultSlice{}
+	}
+	st.resultSlices[res.Base.S] = resultSlice{key: "E|" + typeKey(pt), w0: w0}
 	// bridge for the solver: from a selected row x directly to its entity object and its place in the result
 	if pos, ok := st.ghostObj["lastpos"].(*Term); ok && b.Kind == "query" {
+		st.ghostObj["pos:"+res.Base.S] = pos
 		x := st.qv("x")
 		px := Select(pos, x)
 		inRes := And(Ge(px, IntLit(0)), Lt(px, n), Eq(Select(rows, px), x))
